@@ -136,6 +136,20 @@ theorem mutf8_lenient_witness :
 /-- a high surrogate followed by a low surrogate cannot be read back as two code points -/
 theorem mutf8_split_pair_witness : Mutf8.decode (Mutf8.encode [0xd800, 0xdc00]) = some [0x10000] := by decide
 
+/-! ## annotations -/
+
+/-- `annotation_read_encode`: an annotation with element values of every kind (`B C D F I J S Z s e c @ [`), nested to
+any depth, any pool indices resolving to its constants, is read back as exactly its description; the recursion fuel
+the model needs (`2 * bytes + 2`) always suffices -/
+theorem annotation_read_encode (p : Pool) (a : SAnno) (ha : a.Legal p) (r : Bytes) :
+    readAnnotation p (a.encode ++ r) = ok (a.fact, r) :=
+  readAnnotation_enc p a ha r
+
+example : (SAnno.mk 1 [76, 65, 59] [.mk 2 [118] (.arr [.str 2 [118], .anno (.mk 1 [76, 65, 59] [])])]).Legal
+    (poolTable [.utf8 [76, 65, 59], .utf8 [118]]) := by
+  simp [SAnno.Legal, pairsLegal, SPair.Legal, SElem.Legal, elemsLegal]
+  exact ⟨rfl, rfl, rfl⟩
+
 /-! ## constant pool -/
 
 /-- `pool_read`: for every list of constant-pool entries — any order, duplicates, unused entries, `Long`/`Double` at
@@ -158,12 +172,15 @@ flags, name, descriptor and attributes (nothing attached to another member), `Bo
 the methods whatever its position, unknown attributes byte for byte.
 
 Fragment (attributes covered by the theorem): class — `Deprecated Synthetic SourceFile Signature InnerClasses
-EnclosingMethod NestHost NestMembers PermittedSubclasses BootstrapMethods` + unknown; field — `Deprecated Synthetic
-ConstantValue Signature` + unknown; method — `Deprecated Synthetic Code Exceptions Signature` + unknown; `Code` —
+EnclosingMethod NestHost NestMembers PermittedSubclasses BootstrapMethods RuntimeVisibleAnnotations
+RuntimeInvisibleAnnotations` + unknown; field — `Deprecated Synthetic ConstantValue Signature RuntimeVisibleAnnotations
+RuntimeInvisibleAnnotations` + unknown; method — `Deprecated Synthetic Code Exceptions Signature
+RuntimeVisibleAnnotations RuntimeInvisibleAnnotations AnnotationDefault MethodParameters` + unknown; `Code` —
 `StackMapTable LineNumberTable LocalVariableTable LocalVariableTypeTable` + unknown, exception table.
+Annotation attributes may occur several times (their annotations are concatenated in file order).
 Outside the fragment (modelled, tied by the correspondence run and the oracles only): `StackMap` (CLDC),
-all `Runtime(In)Visible(Type|Parameter)Annotations`, `AnnotationDefault`, `MethodParameters`, `SourceDebugExtension`,
-`Record`, `Module`, `ModulePackages`, `ModuleMainClass`. -/
+`Runtime(In)VisibleTypeAnnotations` (of every owner), `Runtime(In)VisibleParameterAnnotations` (dropped by the reader, see
+the witness), `SourceDebugExtension`, `Record`, `Module`, `ModulePackages`, `ModuleMainClass`. -/
 theorem class_read_encode_partial (c : ClassLayout) (hleg : c.Legal) (facts : ClassFacts) (hfacts : c.facts = some facts)
     (r : Bytes) : ∃ raw, ClassRead.read (c.encode ++ r) = ok (raw, r) ∧ raw.resolve = some facts :=
   read_encode c hleg facts hfacts r
